@@ -255,6 +255,8 @@ class Interp:
     def is_function_value(self, t):
         if t[0] in ('lambda', 'closure'):
             return True
+        if t[0] == 'sym' and t[1] in self.repo.classes:
+            return True                # a class of the repository, held in a variable
         if t[0] == 'attr' and t[1][0] == 'obj':
             return t[2] in self.repo.classes.get(t[1][1], {})
         return False
@@ -683,6 +685,18 @@ class Interp:
                 target = self.resolve_method(fv[1], fv[2], len(args) + len(kw), fr)
                 if target is not None:
                     return self.inline(target, fv[1], args, kw, fr, n)
+            if fv[0] == 'sym' and fv[1] in self.repo.classes and not (isinstance(f, ast.Name) and f.id == fv[1]):
+                return self.construct(fv[1], args, kw, fr, n)           # a class held in a variable / looked up in a table
+        if isinstance(f, ast.Name) and f.id == 'compress' and f.id not in fr.env and len(args) == 2 and not kw:
+            # itertools.compress(data, selectors) = [data[k] for k in range(len(data)) if selectors[k]]
+            data, sel = args
+            if data[0] == 'call' and data[1] == S('range') and len(data[2]) in (1, 2) and not (len(data) > 3 and data[3]):
+                lo = C(0) if len(data[2]) == 1 else data[2][0]
+                b = self.new_binder(data, 'x')
+                pos = b if lo == C(0) else simp(BIN('Sub', b, lo))
+                return ('comp', ((b, as_cond(I(sel, pos))),), b)
+            b = self.new_binder(CALL(S('range'), [CALL(S('len'), [data])]), 'k')
+            return ('comp', ((b, as_cond(I(sel, b))),), I(data, b))
         if isinstance(f, ast.Name) and f.id in ('filter', 'takewhile') and f.id not in fr.env and len(args) == 2 and args[0][0] in ('lambda', 'closure') and not kw:
             # filter(f, X) = [x for x in X if f(x)];  takewhile(f, X) = the prefix of X before the first x with not f(x)
             b = self.new_binder(args[1], 'x')
@@ -833,6 +847,8 @@ class Interp:
     def inline(self, target, recv, args, kw, fr, n, base_env=None, cls=None):
         if base_env is None and self.opaque is not None and self.opaque(target):
             rv = CALL(A(recv if recv is not None else S('<module>'), target.name), args, kw)
+            if getattr(self, 'opaque_ret', None) and target.name in self.opaque_ret:
+                rv = self.opaque_ret[target.name]          # the analysis supplies what the opaque call hands back
             self.emit(Eff('callo', fr.func, n, target=target, args=tuple(args), ret=rv))
             return rv
         if self.depth >= MAX_INLINE or target in self.stack:
